@@ -113,6 +113,13 @@ def resolve_syntatic_sugar(a: ast.AST) -> ast.AST:
             arg_values = a.args
             arg_names = [ast.Constant(value=n) for n in sig_arg_names[: len(arg_values)]]
             arg_lookup = {a.arg: a.value for a in a.keywords}
+            for name in sig_arg_names[: len(arg_values)]:
+                if name in arg_lookup:
+                    assert isinstance(a.func, ast.Constant)
+                    raise ValueError(
+                        f"Argument {name} of dataclass {a.func.value} is given twice, by position"
+                        f" and by keyword - {ast.unparse(node)}."
+                    )
             for name in sig_arg_names[len(arg_values) :]:
                 if name in arg_lookup:
                     arg_values.append(arg_lookup[name])
